@@ -375,6 +375,16 @@ func TestVerif(t *testing.T) {
 		}
 		tape := simrt.NewTape(seed)
 		r := execute(t, prop, tier, tape, 1)
+		if dd := os.Getenv("VERIF_DUMPLOG"); dd != "" {
+			// debugging aid for the determinism self-test: the full event log of every run
+			rr := execute(t, prop, tier, simrt.NewTape(seed), 100000)
+			os.WriteFile(fmt.Sprintf("%s/%d.log", dd, idx), []byte(strings.Join(rr.Log.Lines, "\n")), 0o644)
+			var ds []string
+			for _, d := range rr.T.Rec {
+				ds = append(ds, fmt.Sprintf("%s/%d=%d", d.Kind, d.N, d.V))
+			}
+			os.WriteFile(fmt.Sprintf("%s/%d.tape", dd, idx), []byte(strings.Join(ds, "\n")), 0o644)
+		}
 		if hl := os.Getenv("VERIF_HASHLOG"); hl != "" {
 			// determinism self-test: one line per run with the hash of its complete event log
 			if f, err := os.OpenFile(hl, os.O_CREATE|os.O_WRONLY|os.O_APPEND, 0o644); err == nil {
